@@ -115,7 +115,22 @@ class World:
 
 def age_op(w, want):
     ms = w.clock.advance(want)
-    return [{"op": "age", "ms": ms}] if ms else []
+    return [{"op": "age", "ms": ms, "want": want}] if ms else []
+
+
+def retime(case, consts):
+    """re-resolve the clock advances of a stored case against the CURRENT timeouts, so that corpus cases
+    keep their 2 s guard bands when FETCH_TIMEOUT / PENDING_TIMEOUT change in the source"""
+    clock = Clock(consts[1], consts[2])
+    ops = []
+    for op in case["ops"]:
+        if op.get("op") == "age":
+            ms = clock.advance(op.get("want", op["ms"]))
+            if ms is None:
+                continue
+            op = dict(op, ms=ms)
+        ops.append(op)
+    return dict(case, ops=ops)
 
 
 # ------------------------------------------------------------------------------------------ generator
@@ -167,8 +182,9 @@ def random_history(rng, consts, deep=False, adversarial=False):
         elif r < 0.76:
             ops.append({"op": "next"})
         elif r < 0.88:
-            ops += age_op(w, rng.choice([1000, 3000, 10000, 17000, 23000, 30000, 60000, 300000, 890000,
-                                         910000, 1000000]))
+            F, P = consts[1], consts[2]
+            ops += age_op(w, rng.choice([1000, 3000, F // 2, F - 3000, F + 3000, F * 3 // 2, 3 * F, P // 3,
+                                         P - 10000, P + 10000, P + 100000]))
             if rng.random() < 0.5:
                 ops.append({"op": "next"})
         elif r < 0.94:
@@ -202,12 +218,13 @@ def timeout_script(rng, consts):
     nk = len(w.keys)
     ops = [{"op": "add", "h": 0, "inc": [[i, w.kind[i]] for i in range(nk)], "held": []},
            {"op": "add", "h": 1, "inc": [[i, w.kind[i]] for i in range(nk)], "held": []}]
-    ops += age_op(w, rng.choice([5000, 15000]))
+    F = consts[1]
+    ops += age_op(w, rng.choice([F // 4, F * 3 // 4]))
     ops.append({"op": "add", "h": 2, "inc": [[rng.randrange(nk), 0]], "held": []})       # fast path, other holder
-    ops += age_op(w, rng.choice([10000, 16000]))       # first batch expired, the later fetch maybe not
+    ops += age_op(w, rng.choice([F // 2, F * 4 // 5]))       # first batch expired, the later fetch maybe not
     ops.append(rng.choice([{"op": "next"}, {"op": "put", "k": 0, "t": w.kind[0]},
                            {"op": "add", "h": 1, "inc": [[0, w.kind[0]], [1, w.kind[1]]], "held": []}]))
-    ops += age_op(w, 30000)
+    ops += age_op(w, F * 3 // 2)
     ops.append({"op": "next"})
     ops.append({"op": "next"})
     return w.case(ops, "timeout")
@@ -247,7 +264,7 @@ def liveness_script(rng, consts):
                         "held": "auto"})
         ops.append({"op": "add", "h": 0, "inc": [[i, 0] for i in range(nk)], "held": "auto", "round": True})
         ops.append({"op": "complete", "n": 1000, "mode": "put", "store": True})
-        ops += age_op(w, rng.choice([1000, 5000, 30000]))
+        ops += age_op(w, rng.choice([1000, 5000, consts[1] * 3 // 2]))
         if len(ops) > 70:
             break
     return w.case(ops, "liveness", live={"k": target, "t": 0, "h": 0, "bound": -(-nk // consts[0]) + 1})
@@ -267,7 +284,7 @@ def exhaustive_cases(rng, consts, length, limit):
         {"op": "put", "k": b, "t": 3},
         {"op": "range", "r": str(w.dist[b])},
         {"op": "far", "k": b},
-        {"op": "age", "ms": 25000},
+        {"op": "age", "ms": 25000, "want": consts[1] + 5000},
         {"op": "next"},
     ]
     seqs = list(itertools.product(range(len(alphabet)), repeat=length))
@@ -275,13 +292,7 @@ def exhaustive_cases(rng, consts, length, limit):
         seqs = rng.sample(seqs, limit)
     out = []
     for s in seqs:
-        ops, v = [], 0
-        for i in s:
-            o = dict(alphabet[i])
-            if o["op"] == "age":
-                v += 25000          # multiples of 25 s are never within 2 s of x+20 s or x+900 s
-            ops.append(o)
-        out.append(w.case(ops, "exhaustive"))
+        out.append(retime(w.case([dict(alphabet[i]) for i in s], "exhaustive"), consts))
     return out
 
 
@@ -615,10 +626,28 @@ def run(ctx):
         "tools/props/C08.py (generator, oracle, renderer)"])
     binary = ctx.cargo_build("c08")
     ctx.c08_consts = read_consts()
-    cases = ctx.corpus() + ([] if ctx.replay else gen(ctx))
-    ctx.pipeline(cases, binary, oracle, model_term, IMPORTS, nontrivial=nontrivial, show=show, shard_size=24,
-                 relation="ReplicationFetcher::{add_keys,next_keys_to_fetch,notify_*,set_*} steps accepted by "
-                          "Fetcher.step_ok (run_ok init trace)")
+    cases = ctx.corpus()
+    if not ctx.replay:
+        cases = [retime(c, ctx.c08_consts) for c in cases] + gen(ctx)
+    import copy
+    for attempt in range(3):
+        snap = (list(ctx.impl_viol), list(ctx.tie_breaks), copy.deepcopy(ctx.cov), set(ctx._nontrivial))
+        ctx.pipeline(cases, binary, oracle, model_term, IMPORTS, nontrivial=nontrivial, show=show, shard_size=24,
+                     relation="ReplicationFetcher::{add_keys,next_keys_to_fetch,notify_*,set_*} steps accepted by "
+                              "Fetcher.step_ok (run_ok init trace)")
+        stale = [t for t in ctx.tie_breaks[len(snap[1]):]
+                 if t[0] == "model-eval" and "inconsistent assumptions" in str(t[2])]
+        if not stale or attempt == 2:
+            break
+        # a concurrent check of another property regenerated gen/Consts.v between our build and the model
+        # evaluation (shared coq/ directory): rebuild our cone and evaluate again
+        ctx.log("model evaluation hit a stale .vo (Consts.v regenerated concurrently); rebuilding and repeating")
+        ctx.impl_viol[:] = snap[0]
+        ctx.tie_breaks[:] = snap[1]
+        ctx.cov.clear()
+        ctx.cov.update(snap[2])
+        ctx._nontrivial = snap[3]
+        ctx.coq_make(["props/C08.v"])
 
 
 def read_consts():
